@@ -198,19 +198,22 @@ func goWalk(root interface{}, path []interface{}) (reflect.Value, bool) {
 			if !v.IsValid() {
 				return reflect.Value{}, false
 			}
+			// the method may sit at any level of a chain of pointers (**T has no methods of its own, the value behind it is
+			// still data that is there): look at every level down to the first nil
 			var meth reflect.Value
-			for i := 0; i < v.NumMethod(); i++ {
-				if lowerCamel(v.Type().Method(i).Name) == name {
-					meth = v.Method(i)
+			for cur := v; cur.IsValid() && !meth.IsValid(); {
+				if cur.Kind() == reflect.Ptr && cur.IsNil() {
+					break
 				}
-			}
-			if !meth.IsValid() && v.Kind() == reflect.Ptr && !v.IsNil() {
-				e := v.Elem()
-				for i := 0; i < e.NumMethod(); i++ {
-					if lowerCamel(e.Type().Method(i).Name) == name {
-						meth = e.Method(i)
+				for i := 0; i < cur.NumMethod(); i++ {
+					if lowerCamel(cur.Type().Method(i).Name) == name {
+						meth = cur.Method(i)
 					}
 				}
+				if cur.Kind() != reflect.Ptr {
+					break
+				}
+				cur = cur.Elem()
 			}
 			if !meth.IsValid() || (v.Kind() == reflect.Ptr && v.IsNil()) {
 				return reflect.Value{}, false
